@@ -115,7 +115,7 @@ class Readers:
                 elif callee.name == 'read_varbytes':
                     toks.append(('varbytes', None, var))
                 elif callee.name == 'read_many':
-                    item = self.ctx.res.resolve_ref(s.value.args[2], f) if len(s.value.args) == 3 else None
+                    item = self.ctx.res.resolve_ref(s.value.args[2], f) if len(s.value.args) >= 3 else None
                     if item is None:
                         raise AnalysisError(f'{f.key}: read_many item reader not resolvable')
                     itoks, ictor = self.tokens(item, depth + 1)
@@ -853,6 +853,41 @@ def rule_count_offsets(ctx, f, cfg, cl):
     return 1
 
 
+def rule_reader_raises(ctx):
+    """A reader of lib/tx.py gives up on a buffer only because a primitive read ran off its end (struct.error, IndexError from
+    the read itself): that is what "the buffer is too short" means to every caller.  A `raise` of the reader's own - a size
+    estimate, a plausibility test - refuses buffers by a second criterion; when the estimate is off by a byte a valid
+    transaction at the end of a chunk (or of a block) is rejected, or an invalid one is let through to the parse."""
+    rel = ctx.repo.path('tx')
+    n = 0
+    for name in ('read_tx', 'read_many', 'read_input', 'read_output', 'read_varbytes', 'read_varint'):
+        f = ctx.repo.funcs.get(f'{rel}::{name}')
+        if f is None:
+            continue
+        n += 1
+        own = [r_ for r_ in f.own_nodes() if isinstance(r_, ast.Raise)]
+        ctx.check(not own, 'C13.READERRAISE', ctx.key(f, own[0] if own else None, 'no refusal of its own'),
+                  'the reader raises only through its primitive reads',
+                  f'{name} raises on a test of its own (`{norm(own[0])[:70] if own else ""}`): buffers are refused by a criterion other '
+                  'than a primitive read running off the end', loc=ctx.loc(f, own[0] if own else f.node))
+    return n
+
+
+def rule_header_read(ctx):
+    """OnDiskBlock.__enter__ positions the file behind the 80-byte header on every path: everything after it (tx count,
+    chunk offsets `assert base_offset == 80`, the first chunk) reads from the current position."""
+    f = ctx.func('bp', 'OnDiskBlock.__enter__')
+    cfg = ctx.cfg(f)
+    reads = [q.stmt(c) for c in q.own_calls(f) if q.callee_name(ctx, f, c) in ('self._read', 'self.block_file.read', 'self.block_file.seek')
+             and c.args and const_value(c.args[0]) == 80]
+    p = pr.path_avoiding(cfg, [cfg.entry], [cfg.exit], {cfg.node(s_) for s_ in reads}) if reads else [cfg.entry]
+    ctx.check(bool(reads) and p is None, 'C13.HEADERREAD', ctx.key(f, None, 'header consumed on every path'),
+              'entering the block always consumes its 80-byte header',
+              '__enter__ can return with the file still at offset 0: the header bytes are then parsed as the transaction count and '
+              'the first transactions', witness=cfg.describe_path(p) if (p and reads) else None, loc=ctx.loc(f, f.node))
+    return 1
+
+
 def rule_hashspan(ctx):
     f = ctx.func('tx', 'Deserializer.read_tx_and_hash')
     cfg = ctx.cfg(f)
@@ -970,4 +1005,6 @@ def run(ctx):
     ctx.rule('C13.TRUNC', lambda: rule_trunc(ctx, rd), 3)
     ctx.rule('C13.chunk-loops', lambda: rule_chunk_loops(ctx, rd), 16)
     ctx.rule('C13.HASHSPAN', lambda: rule_hashspan(ctx), 2)
+    ctx.rule('C13.READERRAISE', lambda: rule_reader_raises(ctx), 5)
+    ctx.rule('C13.HEADERREAD', lambda: rule_header_read(ctx), 1)
     ctx.rule('C13.REVERSE', lambda: rule_reverse(ctx), 3)
